@@ -40,8 +40,10 @@ RULE = ('all histories over set(input,v)/evaluate(cell) on 13 small acyclic '
         'result would be observable)')
 BOUNDS = {
     'quick': {'unmerged_depth': 4, 'unmerged_depth_named_model': 3,
-              'unmerged_depth_alphabets_over_9_ops': 3, 'merged': 'depth 5'},
+              'unmerged_depth_alphabets_over_9_ops': 3, 'merged': 'depth 5',
+              'whole_row_model_depth': 2},
     'thorough': {'unmerged_depth': 5, 'unmerged_depth_named_model': 4,
+                 'whole_row_model_depth': 4,
                  'merged': 'fixpoint (complete reachable state space)'},
 }
 ASSUMPTIONS = [
@@ -66,6 +68,7 @@ LEVEL_NOTE = ('Every transition is an execution of the implementation, so '
 
 DEPTH = {'quick': 4, 'thorough': 5}
 DEPTH_NAMED = {'quick': 3, 'thorough': 4}
+COSTLY_DEPTH = {'quick': 2, 'thorough': 4}
 MERGED_DEPTH = {'quick': 5, 'thorough': None}     # None = to the fixpoint
 
 
@@ -206,7 +209,10 @@ def check_last(spec, hist, ctx, count_from=0):
     before = run.fp()
     for a in spec.inputs:
         if run.inputs[a] is None:
-            continue        # not a cell of the model yet
+            # not a cell of the model yet: what reading it returns is not
+            # laid down, but reading it does not make it one
+            lib.observe(run.ev.get_cell_value, a)
+            continue
         g = lib.observe(run.ev.get_cell_value, a)
         ctx.check(key + '#get/' + a, g, lib.norm(run.inputs[a]),
                   ['oracle:get-input'], inputs, False)
@@ -302,6 +308,14 @@ def plan(tier):
         shards.append({'model': spec.name, 'mode': 'merged', 'weight': 100,
                        'unmerged_depth': depth,
                        'max_depth': MERGED_DEPTH[tier]})
+    for f in models.COSTLY:
+        spec = f()
+        ops = alphabet(spec)
+        depth = COSTLY_DEPTH[tier]
+        shards.append({'model': spec.name, 'mode': 'short', 'plen': 2})
+        for prefix in itertools.product(range(len(ops)), repeat=2):
+            shards.append({'model': spec.name, 'mode': 'unmerged',
+                           'prefix': list(prefix), 'depth': depth})
     return shards
 
 
